@@ -1184,6 +1184,7 @@ func TestC11(t *testing.T) {
 	c11Isolation(t, rep, orc, rng.Fork(), env)
 	rep.Note("wall: allocators %.1fs, isolation+f11 %.1fs", t1.Sub(t0).Seconds(), time.Since(t1).Seconds())
 	c11ExtraWireIDs(t, rep, rng.Fork(), env)
+	c11ExtraFailedRun(t, rep, rng.Fork(), env)
 	// the SACK handshake while other connections' SYN-ACKs are on the capture handle
 	handshakeStream(t, rep, orc, rng.Fork(), env.Scale(1500, 30000))
 	if rep.Failed() {
